@@ -184,7 +184,7 @@ def _msg_class(msg):
         (r"invalid memory address or nil pointer", "nil-deref"),
         (r"interface conversion", "interface-conversion"),
         (r"stack overflow|stack exceeds", "stack-overflow"),
-        (r"out of memory|cannot allocate", "out-of-memory"),
+        (r"out of memory|cannot allocate|pthread_create failed|SIGABRT: abort", "out-of-memory"),
         (r"unknown frame in response to options", "unknown-frame-in-response-to-options"),
         (r"not enough bytes in buffer", "not-enough-bytes"),
         (r"no valid connect address", "no-valid-connect-address"),
